@@ -71,6 +71,33 @@ type limitsCfg struct {
 	Count int64  `json:"max_file_count"`
 	Depth int64  `json:"max_depth"`
 	Rec   bool   `json:"recursive"`
+	// Via: "" = the limits object is built with NewLimits from the five values; otherwise it comes from the library's
+	// constructor RecursiveZipLimits(Depth) (File, Total, Count are then that constructor's documented defaults) and, before it
+	// is used, the named other constructor is called as well ("-" = none): a limits object must not change under its owner
+	Via string `json:"limits_from_constructor_then,omitempty"`
+}
+
+// ctorDefaults: what RecursiveZipLimits / DefaultZipLimits / DefaultLimits document (1 GiB per file, 10 GiB in total, a million files).
+const ctorFile, ctorTotal, ctorCount = int64(1) << 30, uint64(10) << 30, int64(1000000)
+
+func (c limitsCfg) build() filesystem.ILimits {
+	if c.Via == "" {
+		return filesystem.NewLimits(c.File, c.Total, c.Count, c.Depth, c.Rec)
+	}
+	l := filesystem.RecursiveZipLimits(c.Depth)
+	switch c.Via {
+	case "DefaultZipLimits":
+		_ = filesystem.DefaultZipLimits()
+	case "DefaultLimits":
+		_ = filesystem.DefaultLimits()
+	case "RecursiveZipLimits(6)":
+		_ = filesystem.RecursiveZipLimits(6)
+	case "RecursiveZipLimits(0)":
+		_ = filesystem.RecursiveZipLimits(0)
+	case "NoLimits":
+		_ = filesystem.NoLimits()
+	}
+	return l
 }
 
 func (c limitsCfg) String() string {
@@ -83,7 +110,7 @@ func (c limitsCfg) String() string {
 	return fmt.Sprintf("file=%s total=%s count=%s depth=%s rec=%v", h(c.File), h(int64(c.Total)), h(c.Count), h(c.Depth), c.Rec)
 }
 
-func hugeCfg(rec bool) limitsCfg { return limitsCfg{huge, huge, huge, -1, rec} }
+func hugeCfg(rec bool) limitsCfg { return limitsCfg{huge, huge, huge, -1, rec, ""} }
 
 // measure is what the independent walk finds below the destination.
 type measure struct {
@@ -263,7 +290,7 @@ func extract(backend, osRoot string, zipBytes []byte, c limitsCfg) (result, erro
 				xerr = fmt.Errorf("the extraction panicked: %v", pv)
 			}
 		}()
-		_, xerr = sb.fs.UnzipWithContextAndLimits(context.Background(), sb.src, sb.dest, filesystem.NewLimits(c.File, c.Total, c.Count, c.Depth, c.Rec))
+		_, xerr = sb.fs.UnzipWithContextAndLimits(context.Background(), sb.src, sb.dest, c.build())
 	}()
 	r := result{Err: xerr, Kind: kindOf(xerr), M: walk(sb.raw, sb.dest), Mutat: sb.trace.Mutating, Panic: panicked}
 	if xerr != nil {
@@ -341,6 +368,12 @@ func judge(p *prepared, c limitsCfg, t0 result, r result) []finding {
 	// the lie classes appear only in the two clauses that are about the lie itself. The backend is in the replay object,
 	// not in the signature (the same defect shows on both).
 	tag := fmt.Sprintf("shape=%s:rec=%v", p.shape, c.Rec)
+	if c.Via != "" {
+		tag += ":limits=from-constructor"
+		if c.Via != "-" {
+			tag += "-then-another-constructor-call"
+		}
+	}
 	lieTag := tag
 	if p.tr.Liar {
 		lieTag += ":lie=" + p.tr.LieClasses
@@ -467,7 +500,7 @@ func configs(p *prepared, rec bool, t0 result, mode string) []limitsCfg {
 			for _, t := range total {
 				for _, n := range count {
 					for _, d := range depth {
-						add(limitsCfg{f, uint64(t), n, d, rec})
+						add(limitsCfg{f, uint64(t), n, d, rec, ""})
 					}
 				}
 			}
@@ -475,31 +508,38 @@ func configs(p *prepared, rec bool, t0 result, mode string) []limitsCfg {
 	case "file-total": // liars: product of the two size dimensions, count and depth alone
 		for _, f := range file {
 			for _, t := range total {
-				add(limitsCfg{f, uint64(t), huge, -1, rec})
+				add(limitsCfg{f, uint64(t), huge, -1, rec, ""})
 			}
 		}
 		fallthrough
 	default:
 		for _, f := range file {
-			add(limitsCfg{f, huge, huge, -1, rec})
+			add(limitsCfg{f, huge, huge, -1, rec, ""})
 		}
 		for _, t := range total {
-			add(limitsCfg{huge, uint64(t), huge, -1, rec})
+			add(limitsCfg{huge, uint64(t), huge, -1, rec, ""})
 		}
 		for _, n := range count {
-			add(limitsCfg{huge, huge, n, -1, rec})
+			add(limitsCfg{huge, huge, n, -1, rec, ""})
 		}
 		for _, d := range depth {
-			add(limitsCfg{huge, huge, huge, d, rec})
+			add(limitsCfg{huge, huge, huge, d, rec, ""})
 		}
 		m := t0.M
 		for _, delta := range []int64{-1, 0, 1} {
 			f, t, n, d := m.MaxFile+delta, int64(m.Total)+delta, m.Files+delta, m.Depth+delta
 			if f >= 0 && t >= 0 && n >= 0 && d >= -1 {
-				add(limitsCfg{f, uint64(t), n, d, rec})
+				add(limitsCfg{f, uint64(t), n, d, rec, ""})
 			}
 		}
-		add(limitsCfg{1, 1, 1, 0, rec})
+		add(limitsCfg{1, 1, 1, 0, rec, ""})
+	}
+	if rec { // limits objects handed out by the library's constructors, another constructor called before they are used
+		for _, d := range depth {
+			for _, then := range []string{"-", "DefaultZipLimits", "DefaultLimits", "RecursiveZipLimits(6)", "RecursiveZipLimits(0)", "NoLimits"} {
+				add(limitsCfg{ctorFile, ctorTotal, ctorCount, d, true, then})
+			}
+		}
 	}
 	return out
 }
